@@ -138,6 +138,10 @@ pub fn scope(name: &str) -> Option<Scope> {
         "S3mb" => Scope { name: "S3mb", n: 3, r: 1, k: 1, weak: false, upgrade_ops: false, copyroot: false, wrap: false, leaf: true, barrier: true, metrics_canon: true, ..BASE },
         "S2n" => Scope { name: "S2n", n: 2, r: 1, k: 1, leaf: true, natural: true, metrics_canon: true, max_depth: 9, ..BASE },
         // protocol: all debt classes
+        "S2n11" => Scope { name: "S2n11", n: 2, r: 1, k: 1, leaf: true, natural: true, metrics_canon: true, max_depth: 11, ..BASE },
+        "S3mw" => Scope { name: "S3mw", n: 3, r: 1, k: 1, copyroot: false, leaf: true, metrics_canon: true, ..BASE },
+        "S3pw" => Scope { name: "S3pw", n: 3, r: 1, k: 1, copyroot: false, faults: true, pcallbacks: true, ..BASE },
+        "S2p2" => Scope { name: "S2p2", n: 2, r: 2, k: 2, faults: true, pcallbacks: true, ..BASE },
         "S2q" => Scope { name: "S2q", n: 2, r: 1, k: 1, classes: 0b111, fin: true, born_canon: true, ..BASE },
         // 3 objects + finalization
         "S3f" => Scope { name: "S3f", n: 3, r: 1, k: 1, fin: true, wrap: false, ..BASE },
